@@ -304,6 +304,12 @@ def final_density_matrix(
             deferred = measurement_transformers.defer_measurements(noise_applied)
             dephased = measurement_transformers.dephase_measurements(deferred)
             program = dephased
+            # The given order covers the qubits of the circuit; the ancilla qubits of the
+            # deferred measurements come after them.
+            main_qubits = ops.QubitOrder.as_qubit_order(qubit_order).order_for(
+                circuit_like.all_qubits()
+            )
+            qubit_order = ops.QubitOrder.explicit(main_qubits, fallback=ops.QubitOrder.DEFAULT)
         elif ignore_measurement_results:
             # case 2: no classical control, only terminal measurement
             program = measurement_transformers.dephase_measurements(circuit_like)
@@ -323,11 +329,11 @@ def final_density_matrix(
 
         if handling_classical_control:
             # assuming that the ancilla qubits from the transformations are at the end
-            keep = list(range(protocols.num_qubits(circuit_like)))
-            dephased_qid_shape = protocols.qid_shape(dephased)
+            keep = list(range(len(main_qubits)))
+            dephased_qid_shape = protocols.qid_shape(qubit_order.order_for(dephased.all_qubits()))
             tensor_form = np.reshape(result, dephased_qid_shape + dephased_qid_shape)
             reduced_form = transformations.partial_trace(tensor_form, keep)
-            width = np.prod(protocols.qid_shape(circuit_like))
+            width = np.prod(protocols.qid_shape(main_qubits), dtype=np.int64)
             result = np.reshape(reduced_form, (width, width))
 
         return result
